@@ -217,6 +217,7 @@ def run(ctx, out, tier):
     asyncval.check_sibling_selectors(ctx, out)
     shared.sh_err(ctx, out, ctx.validator_bodies(NAME) + [b for b in ctx.reachable_bodies() if b.id.startswith("blockwatch::validators::run")], floor=25)
     shared.sh_state(ctx, out, NAME)
+    shared.sh_merge(ctx, out, ctx.reachable_bodies())
     # fresh interpreter per run (shared with C17.fresh)
     from rules.C17 import factory_fn
     facs = factory_fn(ctx)
